@@ -15,7 +15,9 @@ def build(kind, s):
         if kind == "version": return Version(s)
         if kind == "specifier": return Specifier(s)
         if kind == "set": return SpecifierSet(s)
-        if kind == "marker": return Marker(s)
+        if kind == "marker":
+            if s.startswith("REQ:"): return Requirement("x; " + s[4:]).marker      # the other construction route
+            return Marker(s)
         if kind == "requirement": return Requirement(s)
         if kind == "tag":
             parts = s.split("-")
@@ -24,10 +26,12 @@ def build(kind, s):
         return None
 
 CANDS = ["1.0", "1.0.0", "1", "0.9", "1.1", "2.0", "1.0a1", "1.0.post1", "1.0.dev1", "1.0+x", "1!1.0", "2.0rc1", "1.5", "1.0.1", "3", "0"]
+ENVS_EXTRA_VALUES = ['a"b\'c', 'a\\x22b\'c', "a\\b", 'a"b', "a'b"]
 ENVS = [dict(os_name=a, sys_platform=c, python_version=d, python_full_version=d + ".1", platform_machine="x86_64", platform_release="5.15",
              platform_system="Linux", platform_version="#1", implementation_name="cpython", implementation_version=d + ".1",
              platform_python_implementation="CPython", extra=e)
         for a in ("posix", "nt") for c in ("linux", "win32") for d in ("3.8", "3.12") for e in ("", "foo-bar", "x")]
+ENVS += [dict(ENVS[0], platform_version=v, os_name=v, platform_release=v) for v in ENVS_EXTRA_VALUES]
 
 def behaviour(kind, o, extra_cands=()):
     """the observable behaviour the property names for each type"""
